@@ -315,9 +315,18 @@ def run_case(ctx, case, rec, d):
         return            # one band, two parameters: singular -- nothing to fit
     if case['rr']:
         rec.cls('remove-resolved')
+    # all four fitters are built first and used afterwards, the first one last
+    built = {}
     for fmt, md, mm in variants:
         try:
-            ft = fc.make_fitter(md, bands, 'power', (0.0, 8.0), distance_range_kpc=dr, theta=theta, memmap=mm, remove_resolved=case['rr'])
+            built[(fmt, mm)] = fc.make_fitter(md, bands, 'power', (0.0, 8.0), distance_range_kpc=dr, theta=theta, memmap=mm, remove_resolved=case['rr'])
+        except Exception as e:
+            from mc.runner import exc_signature
+            rec.violation('fit-variants|' + exc_signature(e), {'variant': [fmt, mm]}, {'type': type(e).__name__, 'msg': str(e)[:300]})
+            return
+    for fmt, md, mm in variants[::-1]:
+        try:
+            ft = built[(fmt, mm)]
             res[(fmt, mm)] = [ft.fit(fc.make_source(*s)) for s in srcs if (n_ap > 1 or sum(1 for v in s[0] if v in (1, 4)) >= 2)]
         except Exception as e:
             from mc.runner import exc_signature
